@@ -339,6 +339,7 @@ func runC15(c *Ctx) {
 	runC15Round5(c)
 	runC15JSONExhausted(c)
 	runC15Round5b(c)
+	runC15ErrorHandler(c)
 }
 
 func runC15Wiring(c *Ctx, names map[int64]string) {
